@@ -231,10 +231,32 @@ def slice_has_call(sl, pred):
     return [c for c in sl["calls"] if pred(c)]
 
 
-def slice_has_str(sl, s):
+def _pv_strs(pv, out):
+    """strings inside the extractor's rendering of a promoted constant; None marks an item it could not render"""
+    if isinstance(pv, dict):
+        for it in pv.get("items", []):
+            _pv_strs(it, out)
+    elif isinstance(pv, list):
+        for it in pv:
+            _pv_strs(it, out)
+    else:
+        out.append(pv)
+
+
+def slice_has_str(sl, s, allow_opaque=False):
+    """the slice contains the string constant `s` (directly or inside a promoted constant). With allow_opaque, a
+    promoted constant whose content the extractor could not render (null item) also counts: the extractor renders
+    `&Some("lit")` promoted by rustc as {"agg": "..::Some", "items": [null]}."""
     for k in sl["consts"]:
         if k.get("v") == s:
             return True
+        if "promoted" in k:
+            items = []
+            _pv_strs(k.get("pv"), items)
+            if s in items:
+                return True
+            if allow_opaque and (k.get("pv") is None or None in items):
+                return True
     return False
 
 
@@ -248,7 +270,8 @@ def is_sender_call(c):
 
 def driver_checks(body, msg_locals):
     """[(switch block, equal_edge_target, other_target)] for eq/ne comparisons between a Header::sender() value of a
-    message in msg_locals and the driver name constant"""
+    message in msg_locals and the driver name constant (or a promoted constant the facts cannot render: a comparison
+    of the sender with a compile-time constant is then assumed to be the driver name)"""
     out = []
     for sb, cc, tt, ft, neg in mir.call_bool_switches(body):
         if not cc.is_("eq", "ne") or len(cc.args) < 2 or tt == ft or tt is None or ft is None:
@@ -258,7 +281,7 @@ def driver_checks(body, msg_locals):
         sl = [backslice(body, a) for a in cc.args[:2]]
         for x, y in ((0, 1), (1, 0)):
             scalls = slice_has_call(sl[x], is_sender_call)
-            if not scalls or not slice_has_str(sl[y], DRIVER):
+            if not scalls or not slice_has_str(sl[y], DRIVER, allow_opaque=True):
                 continue
             # the header whose sender is compared belongs to one of the messages in msg_locals
             ok = False
@@ -288,4 +311,47 @@ def matches_checks_wellknown_sender(f):
         for c in mir.calls(m):
             if c.b in excl and is_sender_call(c):
                 return True
+    return False
+
+
+# ------------------------------------------------------------------------------------------ guards
+def locals_named(body, name, ty_substr):
+    return [l for l, (ty, nm) in enumerate(body.locals) if nm == name and ty_substr in ty]
+
+
+def released_before(body, g, block):
+    """True when on some path the local `g` has been moved out (`move g`, e.g. into `drop(g)`) or dropped
+    before control reaches `block`, without being re-assigned in between. rustc's coroutine witness (computed
+    before drop elaboration) still lists such a local as saved, so R-AWAIT alone does not see an early `drop(guard)`."""
+    kills = set()
+    defs = set()
+    for b, blk in enumerate(body.blocks):
+        if blk.get("c"):
+            continue
+        for st in blk["s"]:
+            if st[0] != "=":
+                continue
+            for op in mir.rvalue_operands(st[2]):
+                if op[0] == "m" and op[1][0] == g and not op[1][1]:
+                    kills.add(b)
+            if st[1][0] == g and not st[1][1]:
+                defs.add(b)
+        t = blk["t"]
+        if t[0] == "call":
+            for a in t[1]["args"]:
+                if a[0] == "m" and a[1][0] == g and not a[1][1]:
+                    kills.add(b)
+            if t[1]["dest"][0] == g and not t[1]["dest"][1]:
+                defs.add(b)
+        if t[0] == "drop" and t[1][0] == g and not t[1][1]:
+            kills.add(b)
+    live = mir.live_blocks(body)
+    s = mir.succs(body)
+    for k in kills:
+        if k not in live:
+            continue
+        if k == block and body.blocks[k]["t"][0] != "drop":
+            return True
+        if block in mir.reachable(body, s[k], avoid=defs - {block}):
+            return True
     return False
